@@ -11,6 +11,7 @@ import (
 	"github.com/prometheus/prometheus/model/labels"
 
 	"github.com/thanos-community/promql-engine/execution/model"
+	"github.com/thanos-community/promql-engine/verifhook"
 )
 
 type errorChan chan error
@@ -79,6 +80,7 @@ func (c *coalesceOperator) Next(ctx context.Context) ([]model.StepVector, error)
 	for idx, o := range c.operators {
 		c.wg.Add(1)
 		go func(opIdx int, o model.VectorOperator) {
+			defer verifhook.Go("coal.next", opIdx)()
 			defer c.wg.Done()
 
 			in, err := o.Next(ctx)
@@ -96,6 +98,7 @@ func (c *coalesceOperator) Next(ctx context.Context) ([]model.StepVector, error)
 				}
 			}
 
+			verifhook.Yield("coal.next.lock")
 			c.mu.Lock()
 			defer c.mu.Unlock()
 
@@ -119,6 +122,7 @@ func (c *coalesceOperator) Next(ctx context.Context) ([]model.StepVector, error)
 		}(idx, o)
 	}
 	c.wg.Wait()
+	verifhook.Yield("coal.next.joined")
 	close(errChan)
 
 	if err := errChan.getError(); err != nil {
@@ -141,6 +145,7 @@ func (c *coalesceOperator) loadSeries(ctx context.Context) error {
 	for i := 0; i < len(c.operators); i++ {
 		wg.Add(1)
 		go func(i int) {
+			defer verifhook.Go("coal.load", i)()
 			defer wg.Done()
 			defer func() {
 				e := recover()
@@ -167,6 +172,7 @@ func (c *coalesceOperator) loadSeries(ctx context.Context) error {
 		}(i)
 	}
 	wg.Wait()
+	verifhook.Yield("coal.load.joined")
 	close(errChan)
 	if err := errChan.getError(); err != nil {
 		return err
